@@ -606,6 +606,7 @@ func lengthSweep(scratch string) {
 		d, err := store.NewDirFromConfig(sb.cfg)
 		must(err)
 		algo := algoOf(def)
+		stored := make([]*string, len(lengths))
 		for i, L := range lengths {
 			pw := make([]byte, L)
 			rng.Read(pw)
@@ -618,6 +619,7 @@ func lengthSweep(scratch string) {
 				violate("C01", fmt.Sprintf("length-sweep:%s:add:L=%d", algo, L), err.Error(), nil, "")
 				continue
 			}
+			stored[i] = &p
 			ok, _, _, _, _ := d.Authenticate(user, p)
 			if !ok {
 				violate("C01", fmt.Sprintf("length-sweep:%s:own-password-rejected", algo), fmt.Sprintf("L=%d", L), nil, "")
@@ -652,6 +654,33 @@ func lengthSweep(scratch string) {
 				if ok {
 					violate("C01", fmt.Sprintf("length-sweep:%s:near-miss-accepted:%s", algo, kind),
 						fmt.Sprintf("stored password of %d bytes, accepted %s (%d bytes)", L, kind, len(q)), nil, "")
+				}
+			}
+		}
+		// ... and after passwords of every length have gone through this one object, each user's own password still
+		// authenticates (in descending and ascending order of length), on this object and on a fresh one: nothing a
+		// hasher has seen earlier may leak into a later computation
+		d2, err := store.NewDirFromConfig(sb.cfg)
+		must(err)
+		for round := 0; round < 2; round++ {
+			for k := range stored {
+				i := k
+				if round == 0 {
+					i = len(stored) - 1 - k
+				}
+				if stored[i] == nil {
+					continue
+				}
+				user := fmt.Sprintf("len%d", i)
+				for which, dd := range []*store.Dir{d, d2} {
+					ok, _, _, _, _ := dd.Authenticate(user, *stored[i])
+					mu.Lock()
+					out.Executions++
+					mu.Unlock()
+					if !ok {
+						violate("C01", fmt.Sprintf("length-sweep:%s:own-password-rejected-after-other-lengths", algo),
+							fmt.Sprintf("L=%d, object %d (0 = the one that handled every length, 1 = fresh), round %d", len(*stored[i]), which, round), nil, "")
+					}
 				}
 			}
 		}
